@@ -15,3 +15,13 @@ func (x *Exec) compactHeap(st *State) {
 		st.H[k] = x.vc.define(fmt.Sprintf("H.%s.v%d", k, x.vc.nheap), t)
 	}
 }
+
+// Typed heap: Is.<T>[r] holds for the references allocated as a T (struct types). Quantifiers
+// over *T range over these, so allocating objects of other types does not disturb them.
+func isTypeComp(t interface{ String() string }) string {
+	return "Is." + t.String()
+}
+
+func (x *Exec) isType(st *State, t interface{ String() string }) *Term {
+	return x.comp(st, isTypeComp(t), SArr(refSort, SBool))
+}
